@@ -21,6 +21,9 @@ type cgNode struct {
 	pkg   *packages.Package
 	out   map[*types.Func]bool
 	calls []*ast.CallExpr
+	// calls made inside a func literal to the local variable that literal is bound to
+	// (`var walk func(…); walk = func(…) { … walk(…) … }`): recursion of the literal
+	closureRec map[*ast.CallExpr]*ast.FuncLit
 }
 
 type callGraph struct {
@@ -58,10 +61,31 @@ func buildCallGraph(ctx *Ctx, eng *effectsEngine) *callGraph {
 				}
 			}
 		}
+		// local closures: variable -> literal bound to it
+		bound := map[types.Object]*ast.FuncLit{}
+		ast.Inspect(n.decl.Body, func(m ast.Node) bool {
+			if as, ok := m.(*ast.AssignStmt); ok && len(as.Lhs) == len(as.Rhs) {
+				for i, l := range as.Lhs {
+					if lit, ok := ast.Unparen(as.Rhs[i]).(*ast.FuncLit); ok {
+						if id, ok := l.(*ast.Ident); ok && objOf(info, id) != nil {
+							bound[objOf(info, id)] = lit
+						}
+					}
+				}
+			}
+			return true
+		})
+		n.closureRec = map[*ast.CallExpr]*ast.FuncLit{}
 		ast.Inspect(n.decl.Body, func(m ast.Node) bool {
 			switch x := m.(type) {
 			case *ast.CallExpr:
 				n.calls = append(n.calls, x)
+				if id, ok := ast.Unparen(x.Fun).(*ast.Ident); ok {
+					if lit, ok := bound[objOf(info, id)]; ok && lit.Pos() <= x.Pos() && x.End() <= lit.End() {
+						n.closureRec[x] = lit
+						n.out[n.fn] = true
+					}
+				}
 				if fn := callee(info, x); fn != nil {
 					add(fn)
 					return true
